@@ -461,6 +461,27 @@ def m_index(ai, fr, st, bb, t, args, key):
     return None
 
 
+
+def m_copy_within(ai, fr, st, bb, t, args, key):
+    """slice.copy_within(start..end, dest): panics unless start <= end <= len and dest + (end - start) <= len; the elements
+    of the slice are no longer tracked individually afterwards."""
+    ps, ln, el = slice_info(ai, st, args[0], key)
+    rng, dest = args[1], args[2]
+    ity = ai.subst_ty(t.args[1].ty, fr.subst)
+    if not (ity.k == "adt" and ity.name == "std::ops::Range" and isinstance(rng, StructV) and isinstance(dest, IntV)):
+        return None
+    s_, e_ = rng.fields[0], rng.fields[1]
+    if not (isinstance(s_, IntV) and isinstance(e_, IntV)):
+        return None
+    bounds_obl(ai, fr, st, bb, t, "start <= end <= len, dest + (end - start) <= len",
+               [e_.lin.sub(s_.lin), ln.lin.sub(e_.lin), ln.lin.sub(dest.lin).sub(e_.lin.sub(s_.lin))], "copy_within")
+    for p in ps:
+        old = ai.read_path(st, p)
+        if isinstance(old, ArrV):
+            ai.write_path(st, p, ArrV(old.kind, old.length, el if el is not None else TopV()), len(ps) > 1, ("cw", key))
+    return UNIT, st
+
+
 def m_copy_from_slice(ai, fr, st, bb, t, args, key):
     ps, l1, _ = slice_info(ai, st, args[0], key)
     _, l2, el = slice_info(ai, st, args[1], key)
@@ -1060,6 +1081,7 @@ def build_models():
     M["core::slice::<impl [T]>::get"] = m_slice_get
     M["core::slice::<impl [T]>::iter"] = m_iter
     M["core::slice::<impl [T]>::copy_from_slice"] = m_copy_from_slice
+    M["core::slice::<impl [T]>::copy_within"] = m_copy_within
     M["core::slice::<impl [T]>::fill"] = m_fill
     for n in ("<std::vec::Vec<T, A> as std::ops::Index<I>>::index",
               "<std::vec::Vec<T, A> as std::ops::IndexMut<I>>::index_mut",
